@@ -185,7 +185,7 @@ var specs = []CheckSpec{
 	{
 		ID: "C15", Pkg: "txtar", UsesVFS: true,
 		Harnesses: []HarnessSpec{
-			{Fn: "VerifC15Write", Quick: map[string]int{"E": 1, "NL": 6}, Thorough: map[string]int{"E": 1, "NL": 9}, Witness: []string{"created", "written", "escaping-name"}},
+			{Fn: "VerifC15Write", Quick: map[string]int{"E": 1, "NL": 6}, Thorough: map[string]int{"E": 1, "NL": 9}, Witness: []string{"created", "written", "escaping-name", "dangling-symlink-in-directory"}},
 			{Fn: "VerifC15WriteTwo", Quick: map[string]int{"E": 2, "NL": 3}, Thorough: map[string]int{"E": 2, "NL": 4}, Witness: []string{"created", "written", "escaping-name"}},
 		},
 		Bounds: map[string]string{
@@ -227,14 +227,16 @@ var specs = []CheckSpec{
 		ID: "C04", Pkg: "testscript", UsesVFS: true,
 		Harnesses: []HarnessSpec{
 			{Fn: "VerifC04Isolation", Quick: map[string]int{"S": 2}, Thorough: map[string]int{"S": 2}, Witness: []string{"removed", "retained", "two-scripts", "fail", "skip", "pass-or-stop", "read-only-dir", "deferred-function-ends-test"}},
+			{Fn: "VerifC04SetupEnds", Witness: []string{"setup-succeeds", "setup-fails", "setup-skips"}},
+			{Fn: "VerifC04Background", Quick: map[string]int{"B": 2}, Thorough: map[string]int{"B": 3}, Witness: []string{"ends-with-processes-running", "wait", "fails-with-processes-running", "skip-with-processes-running"}},
 		},
 		Bounds: map[string]string{
-			"quick":    "one or two scripts run one after the other through the real RunT; exit kind pass / fail / skip / stop; a read-only directory with a file left in the work dir or not; host environment with GOCOVERDIR and GORACE present or absent plus unrelated variables; TestWork and WorkdirRoot on or off (all choices symbolic)",
-			"thorough": "same (the space is finite and fully covered)",
+			"quick":    "one or two scripts run one after the other through the real RunT; exit kind pass / fail / skip / stop; a read-only directory with a file left in the work dir or not; host environment with GOCOVERDIR and GORACE present or absent plus unrelated variables; TestWork and WorkdirRoot on or off (all choices symbolic); a Setup that registers deferred functions and succeeds / returns an error / skips / FailNow; 1-2 background commands (each: exits by itself with success or failure, or runs until signalled; negated or not) followed by nothing / wait / a failing line / skip / stop / wait and a failing line, verbose or not",
+			"thorough": "same, with up to 3 background commands",
 		},
-		Stubs: []string{"as C01; the vfs model enforces directory write permission on unlink so that the chmod walk of removeAll matters"},
-		Assumptions: append([]string{"PART CLAIMED: fresh work directory = archive files, environment built from scratch (documented names, Setup additions, GOCOVERDIR/GORACE pass-through, no other host variable), deferred functions in reverse order on every exit kind, work directory and (after the last script) temp root removed unless retention was requested. NOT claimed: non-interference of scripts running in parallel goroutines, liveness of OS processes started by scripts"}, commonAssumptions...),
-		Outside:     []string{"parallel execution of subtests (t.Parallel is a no-op in the recording T: scripts run one at a time)", "background processes and their termination", "real directory removal semantics beyond the model"},
+		Stubs: []string{"as C01; the vfs model enforces directory write permission on unlink so that the chmod walk of removeAll matters", "VerifC04Background: exec.Command, (*exec.Cmd).Start, (*os.Process).Signal/Kill, (*os.ProcessState).Success/String and testscript.waitOrStop over a process table (waitOrStop itself is C17)"},
+		Assumptions: append([]string{"PART CLAIMED: fresh work directory = archive files, environment built from scratch (documented names, Setup additions, GOCOVERDIR/GORACE pass-through, no other host variable), deferred functions in reverse order on every exit kind, work directory and (after the last script) temp root removed unless retention was requested. process liveness over a process model: at the end of RunT every started background process has ended and been waited for. NOT claimed: non-interference of scripts running in parallel goroutines, real OS processes"}, commonAssumptions...),
+		Outside:     []string{"parallel execution of subtests (t.Parallel is a no-op in the recording T: scripts run one at a time)", "real processes (background commands run over a process model; the goroutine waiting for a command runs when the script first blocks on its done channel: one schedule)", "real directory removal semantics beyond the model"},
 	},
 	{
 		ID: "C17", Pkg: "testscript", UsesVFS: true,
